@@ -713,11 +713,20 @@ class LinkAppend:
         ok = P.pick(rng, okinds)
         li = rng.randrange(len(LINKLISTS[ok]))
         oi = idx(rng)
+        if run.stale_writers and rng.random() < 0.6:
+            # prefer an owner that has an older, stale-for-reads handle (see link_path_changed)
+            for k2 in okinds:
+                ents = run.enum(k2)
+                hit = [i for i, e in enumerate(ents) if id(e) in run.stale_writers]
+                if hit:
+                    ok, oi = k2, P.pick(rng, hit)
+                    li = rng.randrange(len(LINKLISTS[ok]))
+                    break
         owner = run.pick(ok, oi)
         if not link_candidates(run, owner, LINKLISTS[ok][li][1]):
             return None
         return {"op": "link_append", "okind": ok, "o": oi, "list": li, "t": idx(rng),
-                "via": gen_via(run, rng), "tv": gen_via(run, rng), "extend": rng.random() < 0.15}
+                "via": gen_via(run, rng) if not run.stale_writers else 2 * rng.randrange(4), "tv": gen_via(run, rng), "extend": rng.random() < 0.15}
 
     def do(self, run, o):
         owner = run.pick(o["okind"], o["o"])
@@ -729,6 +738,12 @@ class LinkAppend:
             return res(NOOP)
         t = cands[o["t"] % len(cands)]
         oh = run.R(owner, o.get("via", 0))
+        sw = run.stale_writers.get(id(owner))
+        if sw and o.get("via", 0) % 2 == 0:
+            # an older handle of the owner whose view of an emptied list is stale (known finding
+            # F14a): appending through it must still reach the file
+            oh = sw[run.step % len(sw)]
+            run.stats["append_via_stale_owner_handle"] += 1
         th = run.R(t, o.get("tv", 0))
         lst = getattr(oh, attr)
         if o.get("extend"):
@@ -933,6 +948,7 @@ class Delete:
         closure = M.ownership_closure(m)
         M.delete_objects(run.fs_of(parent).model if parent.kind != "file" else parent, closure)
         run.pool = {k: v for k, v in run.pool.items() if k not in set(id(x) for x in closure)}
+        run.stale_writers = {k: v for k, v in run.stale_writers.items() if k not in set(id(x) for x in closure)}
         run.link_path_changed()
         run.stats["deletes"] += 1
         if linked:
@@ -1301,7 +1317,8 @@ class RefusedLink:
             return None
         ok = P.pick(rng, okinds)
         return {"op": "refused_link", "case": case, "okind": ok, "o": idx(rng),
-                "list": rng.randrange(len(LINKLISTS[ok])), "t": idx(rng), "via": gen_via(run, rng)}
+                "list": rng.randrange(len(LINKLISTS[ok])), "t": idx(rng), "via": gen_via(run, rng),
+                "how": P.pick(rng, ["append", "append", "extend", "extend_after_valid"])}
 
     def do(self, run, o):
         case = o["case"]
@@ -1351,7 +1368,21 @@ class RefusedLink:
             t = cands[o["t"] % len(cands)]
             arg = run.R(t, 0)
             allowed = None
-        r = run.call(lambda: lst.append(arg))
+        how = o.get("how", "append")
+        if how == "extend_after_valid":
+            # extend([valid new item, invalid item]): refused as a whole
+            ml = getattr(owner, attr)
+            fresh = [c for c in link_candidates(run, owner, tkind) if not any(x is c for x in ml)]
+            if fresh:
+                vh = run.R(fresh[o["t"] % len(fresh)], 0)
+                r = run.call(lambda: lst.extend([vh, arg]))
+                run.stats["refused_link:extend_after_valid"] += 1
+            else:
+                r = run.call(lambda: lst.extend([arg]))
+        elif how == "extend":
+            r = run.call(lambda: lst.extend([arg]))
+        else:
+            r = run.call(lambda: lst.append(arg))
         run.expect_refused(r, "refused_link_" + attr, case, allowed=allowed)
         after = K._reflist(run.R(owner, 0), attr)
         d = K.deep_diff(before, after)
